@@ -56,7 +56,7 @@ func Specs() map[string]*PropSpec {
 		Rules:       []RuleRef{rR1, rR2, rR3, rR4, rR5, rR14pair, rR14order, rR15m, rR18, rR12c, rR22m, rR11c, rR17x, rR6c}})
 	add(&PropSpec{ID: "C05", Files: []string{"memdb/", "util/"},
 		Explanation: "The locking protocol that single-key linearizability rests on, decided for every path: the key's stripe is held (write mode for writes and mutators) at every keyspace and container access (R15); a value written from a read lies in the same hold (R15r); every acquire is released on all exits (R14p); the atomic key counter is never accessed plainly and never sizes a result (R6); subscriber tables and the lazy-expiry decision are guarded (R17). Linearizability of recorded histories is not decided. Stored strings are immutable, because readers serialise them after the lock was released (R9s); the key counter and the subscriber counter mirror their tables entry by entry (R20n). The stripe table is built once and indexed purely (R15m); a container stored under one key is not shared with another (R26); bytes held by containers are immutable (R9v).",
-		Rules:       []RuleRef{rR15, rR15r, rR14pair, rR6, rR17, rR9s, rR20n, rR20m, rR6w, rR15m, rR26, rR9v, rR9w, rR30g, rR17x, rR6c, rR19a, rR9q, rR14order, rR15l, rR20x}})
+		Rules:       []RuleRef{rR15, rR15r, rR14pair, rR6, rR17, rR9s, rR20n, rR20m, rR6w, rR15m, rR26, rR9v, rR9w, rR30g, rR17x, rR6c, rR19a, rR9q, rR14order, rR15l, rR20x, rR15p}})
 	add(&PropSpec{ID: "C06", Files: []string{"memdb/"},
 		Explanation: "Lazy expiry decided structurally: every observation of a key is dominated by CheckTTL on the same key, KEYS filters candidates through it (R21); key removal and overwrite are paired with deadline removal, KEEPTTL excepted (R22); the expiry routine deletes only on a deadline re-read under the key's stripe (R17). Clock arithmetic is not decided; of the EXPIRE options only the structure is (which lookup outcome and which comparison each arm passes before it installs a deadline, R22e), not the values compared.",
 		Rules:       []RuleRef{rR21, rR22, rR22d, rR22w, rR22o, rR17, rR24u, rR22e, rR22m, rR14pair, rR25, rR15, rR22k}})
@@ -68,7 +68,7 @@ func Specs() map[string]*PropSpec {
 		Rules:       []RuleRef{rR16r, rR16w, rR16c, rR12s, rR24, rR5, rR16x, rR23u, rR24u, rR23, rR16u, rR16y, rR16d, rR16k, rR16i, rR16j, rR16l, rR16b}})
 	add(&PropSpec{ID: "C09", Files: []string{"memdb/list.go", "memdb/list_struct.go", "memdb/db.go", "memdb/dblock.go"},
 		Explanation: "List bookkeeping decided on all paths of the list code: link/unlink events are paired with List.Len updates (R20a); an emptied list is deleted (R20b); accesses and mutations hold the key's write stripe and pops stay in one hold (R15, R15r); LMOVE-style aliasing of the two keys is safe (R25); bounds, replies, identity, error-implies-unchanged (R1, R7, R9, R27); commands registered (R0). Order/multiplicity/index semantics are not decided. Option values an executor parses into a local record are read afterwards (R29). Lazy expiry and deadline removal of the shared keyspace helpers (R21, R22); list element bytes are immutable (R9v).",
-		Rules:       []RuleRef{registeredRule("lpush", "rpush", "lpushx", "rpushx", "lpop", "rpop", "llen", "lindex", "lrange", "lset", "lrem", "ltrim", "lpos", "lmove", "blpop", "brpop"), rR20a, rR20b, rR15, rR15r, rR25, rR1, rR7, rR9, rR27, rR29, rR21, rR22, rR22d, rR22w, rR9v, rR9m, rR32, rR9w, rR14pair, rR20g, rR11e, rR15m}})
+		Rules:       []RuleRef{registeredRule("lpush", "rpush", "lpushx", "rpushx", "lpop", "rpop", "llen", "lindex", "lrange", "lset", "lrem", "ltrim", "lpos", "lmove", "blpop", "brpop"), rR20a, rR20b, rR15, rR15r, rR25, rR1, rR7, rR9, rR27, rR29, rR21, rR22, rR22d, rR22w, rR9v, rR9m, rR32, rR9w, rR14pair, rR20g, rR11e, rR15m, rR15p}})
 	add(&PropSpec{ID: "C10", Files: []string{"memdb/hash.go", "memdb/hash_struct.go", "memdb/db.go"},
 		Explanation: "Hash structure decided on all paths of the hash code: absence is decided by map membership, never by an empty-value sentinel (R20c); HINCRBY is overflow-guarded (R19); an emptied hash is deleted (R20b); field/value bytes reach the map unchanged and copies keep empty values non-nil (R9); locks, bounds, replies, error-implies-unchanged (R15, R1, R7, R27); commands registered (R0). Map contents against a model are not decided. Option values an executor parses into a local record are read afterwards (R29). Lazy expiry and deadline removal of the shared keyspace helpers (R21, R22); hash value bytes are immutable (R9v).",
 		Rules:       []RuleRef{registeredRule("hset", "hsetnx", "hget", "hmget", "hgetall", "hkeys", "hvals", "hlen", "hexists", "hstrlen", "hdel", "hincrby", "hincrbyfloat", "hrandfield"), rR20c, rR19, rR20b, rR9, rR15, rR1, rR7, rR27, rR29, rR21, rR22, rR22d, rR22w, rR9v, rR32, rR9w, rR14pair, rR9q, rR11e, rR20x}})
